@@ -551,10 +551,56 @@ def fixed_corpus(o, m, rng):
     check_value(o, r, frozenset([str(J.interfaces)] + [str(b) for b in J.boundary.args[:2]]), m, 'construct', 'Union(None, c14fixP|c14fixQ, None, faces)')
 
 
+def same_name_members(o, m, rng):
+    """set semantics by object identity (== / hash), on members that PRINT alike: a two-patch ring glued twice gives
+    two different interfaces both named 'A|B' — distinct members must never collapse, equal ones must
+    (added after seeded change C14-1: de-duplication keyed on str(member))"""
+    import itertools
+    from sympde.topology import Square, Line, Cube
+    U = m['Union']
+    for mk, tag in ((Square, 'q'), (Line, 'l')):      # (Boundary.join needs an explicit orientation in 3D)
+        Pa, Pb, Pc = mk('Sa' + tag), mk('Sb' + tag), mk('Sc' + tag)
+        I1 = Pa.get_boundary(axis=0, ext=1).join(Pb.get_boundary(axis=0, ext=-1))
+        I2 = Pa.get_boundary(axis=0, ext=-1).join(Pb.get_boundary(axis=0, ext=1))
+        I3 = Pb.get_boundary(axis=0, ext=1).join(Pc.get_boundary(axis=0, ext=-1))
+        if not (I1 != I2 and str(I1) == str(I2)):
+            o.count('same-name:precondition-not-met')
+            continue
+        fams = [[I1, I2], [I1, I2, I3], [I1, I2, I1], [I2, I3, I2, I1]]
+        for fam in fams:
+            expected = set(fam)
+            perms = list(itertools.permutations(fam))
+            rng.shuffle(perms)
+            for perm in perms[:6]:
+                builds = [('flat', lambda: U(*perm))]
+                if len(perm) >= 3:
+                    builds.append(('nested', lambda: U(U(perm[0], perm[1]), *perm[2:])))
+                    builds.append(('nested-right', lambda: U(perm[0], U(*perm[1:]))))
+                for label, b in builds:
+                    o.evaluations += 1
+                    o.count('same-name:' + label)
+                    u = b()
+                    got = list(u.args) if isinstance(u, U) else ([] if u is None else [u])
+                    if len(got) != len(expected) or set(got) != expected:
+                        o.fail('same-name:%s:%s' % (tag, label),
+                               'Union of %d distinct members printing %s returned %d member(s): members that print alike but are different objects were collapsed (or duplicated)' % (
+                                   len(expected), sorted({str(x) for x in fam}), len(got)))
+        u3 = U(I1, I2, I3)
+        if isinstance(u3, U):
+            r = u3.complement(I3)
+            got = list(r.args) if isinstance(r, U) else ([] if r is None else [r])
+            if set(got) != {I1, I2} or len(got) != 2:
+                o.fail('same-name:%s:complement' % tag, 'complement on a union with same-named members removed the wrong members')
+
+
 def oracle(ctx, factor, seeds):
     o = Oracle()
     m = _mods()
     rng = ctx.rng
+    try:
+        same_name_members(o, m, rng)
+    except Exception as e:
+        o.fail('same-name-raised:' + type(e).__name__, 'unions of same-named distinct interfaces raised %r' % (e,))
     try:
         fixed_corpus(o, m, rng)
     except Exception as e:
